@@ -35,6 +35,7 @@ import EvalFilter.Proofs.OptWindows
 import EvalFilter.Proofs.OptSim8
 import EvalFilter.Proofs.NoOof
 import EvalFilter.Proofs.FnDefs3
+import EvalFilter.Proofs.FnDefs4
 
 namespace EvalFilter.Props.C03
 open EvalFilter EvalFilter.VM
@@ -329,19 +330,19 @@ theorem C03_optimised_program_correct (F : FnTable) (prog : Program) (hp : pureS
 open EvalFilter.Compiler EvalFilter.Exec in
 /-- … scripts with their own functions included (definitions at top level): the OPTIMISED program - main
     body and function bodies optimised - computes the semantics over the script's own function table -/
-theorem C03_optimised_program_with_functions_correct (prog : Program) (hp : pureSs prog = true) (hn : topNd prog = true)
+theorem C03_optimised_program_with_functions_correct (prog : Program) (hp : pureSs prog = true)
     (hne : 1 ≤ Stmt.sizes prog) (c : Compiled)
     (hc : compileProgram prog = .ok c) (hv : validated c = true) (fns : List (Str × FnImpl)) (obj : HostVal) (env : Env) (out : Str)
     (f : Nat)
-    (hnd : execSs (Api.newMachine c false fns (fun _ => false)) (defsOf prog) obj 0 f prog env out ≠ .diverged) :
-    ∃ f', match programResult 0 0 (execSs (Api.newMachine c false fns (fun _ => false)) (defsOf prog) obj 0 f prog env out) with
+    (hnd : execSs (Api.newMachine c false fns (fun _ => false)) (allDefs prog) obj 0 f prog env out ≠ .diverged) :
+    ∃ f', match programResult 0 0 (execSs (Api.newMachine c false fns (fun _ => false)) (allDefs prog) obj 0 f prog env out) with
       | some (r, s) =>
         (run (Api.newMachine c true fns (fun _ => false)) obj f' ⟨env, out, 0, 0⟩).1 = r ∧
         (run (Api.newMachine c true fns (fun _ => false)) obj f' ⟨env, out, 0, 0⟩).2.out = s.out ∧
         (run (Api.newMachine c true fns (fun _ => false)) obj f' ⟨env, out, 0, 0⟩).2.env.globals = s.env.globals
       | none => True :=
-  C03_optimised_program_correct (defsOf prog) prog hp hne c hc hv fns obj env out f
-    (fnOK_of_compile prog hp hn c hc fns obj) hnd
+  C03_optimised_program_correct (allDefs prog) prog hp hne c hc hv fns obj env out f
+    (fnOK_of_compile_all prog hp c hc fns obj) hnd
 
 /-- the validator accepts real programs: `x = 1 + 2 * 3; if (true) { x = x + 1; } if (1 == 2) { x = 0; } return x;`
     compiled by the model compiler optimises in validated steps -/
